@@ -2,6 +2,7 @@
 //! Shape H: exhaustive op sequences (and long random ones) over a manually advanced time
 //! source, checked against a sequential reference after EVERY prefix. See DESIGN.md §7 C18.
 
+use metrique_timesource::Time as _;
 use metrique::CloseValue;
 use metrique::timers::{EpochMicros, EpochMillis, EpochSeconds, OwnedTimerGuard, Stopwatch, Timer, Timestamp, TimestampOnClose};
 use metrique_timesource::fakes::ManuallyAdvancedTimeSource;
@@ -152,6 +153,82 @@ fn run(ops: &[Op], rep: &Report) -> bool {
         return false;
     }
     drop(guards);
+    true
+}
+
+/// a clock that moves by one millisecond every time it is read (a real clock moves between any two
+/// readings): however many readings an operation takes, the span a stop() RETURNS is the span that
+/// is accumulated
+#[derive(Debug)]
+struct TickingClock {
+    t0: std::time::Instant,
+    w0: std::time::SystemTime,
+    readings: std::sync::atomic::AtomicU64,
+}
+impl metrique_timesource::Time for TickingClock {
+    fn now(&self) -> std::time::SystemTime {
+        self.w0 + Duration::from_millis(self.readings.fetch_add(1, std::sync::atomic::Ordering::SeqCst) + 1)
+    }
+    fn instant(&self) -> std::time::Instant {
+        self.t0 + Duration::from_millis(self.readings.fetch_add(1, std::sync::atomic::Ordering::SeqCst) + 1)
+    }
+}
+
+fn ticking_clock_case(rng: &mut Rng, rep: &Report) -> bool {
+    rep.eval();
+    let clock = std::sync::Arc::new(TickingClock { t0: std::time::Instant::now(), w0: UNIX_EPOCH + Duration::from_secs(1_000_000), readings: Default::default() });
+    #[derive(Debug)]
+    struct Shared(std::sync::Arc<TickingClock>);
+    impl metrique_timesource::Time for Shared {
+        fn now(&self) -> std::time::SystemTime {
+            self.0.now()
+        }
+        fn instant(&self) -> std::time::Instant {
+            self.0.instant()
+        }
+    }
+    let mut sw = Stopwatch::new_from_timesource(TimeSource::custom(Shared(clock.clone())));
+    let mut returned = Duration::ZERO;
+    let mut any = false;
+    let mut guards: Vec<OwnedTimerGuard> = vec![];
+    let mut trace: Vec<String> = vec![];
+    for _ in 0..2 + rng.below(10) {
+        match rng.below(4) {
+            0 if guards.len() < 3 => {
+                guards.push(sw.start_owned());
+                trace.push("start_owned".into());
+            }
+            1 if !guards.is_empty() => {
+                let g = guards.swap_remove(rng.usize_below(guards.len()));
+                let span = g.stop();
+                returned += span;
+                any = true;
+                trace.push(format!("owned.stop() -> {span:?}"));
+            }
+            2 => {
+                let g = sw.start();
+                let span = g.stop();
+                returned += span;
+                any = true;
+                trace.push(format!("borrowed.stop() -> {span:?}"));
+            }
+            _ => {
+                let _ = clock.instant(); // time passes
+                trace.push("tick".into());
+            }
+        }
+        let got = (&sw).close();
+        let expect = if any { Some(returned) } else { None };
+        if got != expect {
+            rep.violation(
+                "stopwatch-total-differs-from-reference",
+                json!({"what": "clock that advances 1 ms per reading; guards ended by stop() only: the stopwatch total must equal the sum of the spans the stop() calls returned",
+                       "trace": trace, "reported": format!("{got:?}"), "sum_of_returned_spans": format!("{expect:?}")}),
+            );
+            return false;
+        }
+    }
+    rep.count("ticking_clock_sequences", 1);
     true
 }
 
@@ -351,6 +428,9 @@ fn random_sequences(args: &Args, rep: &Report, budget: Duration) {
                     if !concurrent_close_round(&mut rng, rep) {
                         return;
                     }
+                    if !ticking_clock_case(&mut rng, rep) {
+                        return;
+                    }
                     rep.distinct(Fnv::new().str(&format!("{:?}", &ops[..12.min(ops.len())])).u64(len as u64).finish());
                 }
             });
@@ -500,6 +580,43 @@ fn timers_and_timestamps(args: &Args, rep: &Report) {
         }
         let _ = sw.start();
         rep.distinct(Fnv::new().str("closed-under-other-source").finish());
+    }
+    // nested thread-local injections: when the inner one ends, the OUTER one is in force again
+    // (not the system clock), for lookups and for values created afterwards
+    {
+        let d = ManuallyAdvancedTimeSource::at_time(UNIX_EPOCH + Duration::from_secs(444));
+        let e = ManuallyAdvancedTimeSource::at_time(UNIX_EPOCH + Duration::from_secs(555));
+        let _outer = set_time_source(TimeSource::custom(d.clone()));
+        observed.push(("outer thread-local", secs(time_source()), 444));
+        {
+            let _inner = set_time_source(TimeSource::custom(e.clone()));
+            observed.push(("inner thread-local over outer", secs(time_source()), 555));
+        }
+        observed.push(("outer again after the inner guard dropped", secs(time_source()), 444));
+        metrique_timesource::with_time_source(TimeSource::custom(e.clone()), || observed.push(("inside with_time_source over outer", secs(time_source()), 555)));
+        observed.push(("outer again after with_time_source returned", secs(time_source()), 444));
+        let timer = Timer::start_now();
+        let mut sw = Stopwatch::new();
+        let g = sw.start_owned();
+        let on_close = TimestampOnClose::default();
+        d.update_instant(Duration::from_secs(2));
+        d.update_time(UNIX_EPOCH + Duration::from_secs(446));
+        let span = g.stop();
+        let epoch = |v: &metrique::timers::TimestampValue| match record_value(v) {
+            Val::String(s) => s.parse::<f64>().ok(),
+            _ => None,
+        };
+        rep.eval();
+        let got = json!({"timer": format!("{:?}", timer.close()), "owned_guard_span": format!("{span:?}"), "stopwatch": format!("{:?}", sw.close()), "timestamp_on_close_ms": epoch(&on_close.close())});
+        let want = json!({"timer": format!("{:?}", Duration::from_secs(2)), "owned_guard_span": format!("{:?}", Duration::from_secs(2)), "stopwatch": format!("{:?}", Some(Duration::from_secs(2))), "timestamp_on_close_ms": 446_000.0});
+        if got != want {
+            rep.violation(
+                "created-under-the-wrong-time-source",
+                json!({"what": "outer injected source D (444 s) in force, an inner injection came and went; timer / stopwatch / timestamp-on-close created afterwards, D advanced by 2 s: every value must come from D",
+                       "got": got, "expected": want}),
+            );
+            return;
+        }
     }
     let sys = secs(time_source());
     let real = std::time::SystemTime::now().duration_since(UNIX_EPOCH).unwrap().as_secs();
